@@ -16,7 +16,7 @@ RULE = ("executable programs over the native gate set with aliases-of-aliases an
 ASSUMPTIONS = ["statement-level queries on busy gates are made through the circuit only",
                "reference used set = syntactic reachability through macros, loops of any count, nested blocks, aliases, lets; busy = all qubits, idle = none"]
 TIERS = {"quick": {"shards": 8, "budget_s": 45}, "thorough": {"shards": 16, "budget_s": 360}}
-REQUIRE = {"overlap:ref-yes": 100, "overlap:ref-no": 300, "used-circuit-compared": 500, "used-statement-compared": 500,
+REQUIRE = {"gate-set:Ad": 500, "overlap:ref-yes": 100, "overlap:ref-no": 300, "used-circuit-compared": 500, "used-statement-compared": 500,
            "permutations-compared": 100, "merge-decisions-observed": 500, "idle-beside-active": 10}
 
 MERGE_LOG = []
@@ -56,7 +56,8 @@ def ref_used_of_tree(P, nd, regname):
 
 def judge(case):
     prog = case_prog(case)
-    st, s = X.setup(prog)
+    variant = case.get("variant", "A")
+    st, s = X.setup(prog, variant=variant)
     if st != "ok":
         return st, [], None
     P = s.P
@@ -149,7 +150,7 @@ def judge(case):
         p2 = permute(prog, case.get("permseed", 0) + k)
         if p2 == prog:
             continue
-        st2, s2 = X.setup(p2)
+        st2, s2 = X.setup(p2, variant=variant)
         if st2 != "ok":
             continue
         o2 = X.run(s2, None, seed=1)
@@ -206,7 +207,8 @@ def process(ctx, case, seen):
     prog = case_prog(case)
     st, fails, info = judge(case)
     multi = any(s[0] == "parallel_block" and len(s) > 2 for s in sx.walk(prog))
-    rec.case(prog, nontrivial=multi)
+    rec.case([prog, case.get("variant", "A")], nontrivial=multi)
+    rec.count("gate-set:" + case.get("variant", "A"))
     if st != "ok":
         rec.count(":".join(st.split(":")[:3]))
         if st.startswith("inconclusive"):
@@ -261,6 +263,8 @@ def shard(ctx):
                         p_let_index=0.4)
         prog = g.program()
         case = {"prog": prog, "permseed": rng.randrange(1 << 20)}
+        if rng.random() < 0.3:
+            case["variant"] = "Ad"  # every gate definition derived by copy() from one that was already used
         process(ctx, case, seen)
         if i <= 3:
             rec.sample({"text": sx.to_text(prog)})
